@@ -7,13 +7,18 @@ TARGET = os.path.join(frontend.CACHE, 'runner-target')
 
 
 def build(release=False):
+    out = os.path.join(TARGET, 'release' if release else 'debug', 'verif_runner')
+    # built once per check run (by the main process, from /repo's current tree); the job processes inherit the marker
+    if os.environ.get('VERIF_RUNNER_BUILT') == out and os.path.exists(out):
+        return out
     shutil.copyfile(os.path.join(frontend.REPO, 'Cargo.lock'), os.path.join(RUNNER_DIR, 'Cargo.lock'))
     cmd = ['cargo', 'build', '--offline'] + (['--release'] if release else [])
     r = frontend.sh(cmd, cwd=RUNNER_DIR, env={'CARGO_TARGET_DIR': TARGET, 'RUSTUP_TOOLCHAIN': 'stable'})
     if r.returncode != 0:
         sys.stderr.write(r.stdout[-4000:])
         raise SystemExit(2)
-    return os.path.join(TARGET, 'release' if release else 'debug', 'verif_runner')
+    os.environ['VERIF_RUNNER_BUILT'] = out
+    return out
 
 
 class Runner:
